@@ -169,7 +169,10 @@ class Context:
                 return "[object String]"
             if isinstance(this_val, JSArray):
                 return "[object Array]"
-            if callable(this_val) or isinstance(this_val, JSCallableObject):
+            if (
+                callable(this_val)
+                or isinstance(this_val, (JSFunction, JSCallableObject))
+            ):
                 return "[object Function]"
             return "[object Object]"
 
